@@ -12,7 +12,7 @@ inductive Tok where
   | stag (name : Bytes) (attrs : List (Bytes × Bytes))
   /-- end tag `</name>` -/
   | etag (name : Bytes)
-  /-- the renderer's literal `<br>` + line feed -/
+  /-- a line break: the void element `br` followed by a line feed -/
   | br
   /-- escaped character data -/
   | text (b : Bytes)
@@ -27,7 +27,7 @@ def flatAttr (a : Bytes × Bytes) : Bytes := [SP] ++ a.1 ++ [0x3D, 0x22] ++ a.2 
 def flatTok (cx : RCtx) : Tok → Bytes
   | .stag name attrs => openTagAttr cx name ++ attrs.flatMap flatAttr ++ [0x3E]
   | .etag name => closeTag cx name
-  | .br => hardLineBreak
+  | .br => openTag cx (str "br") ++ [LF]
   | .text b => b
   | .cref b => b
   | .raw b => b
